@@ -147,6 +147,9 @@ func newWorld(depth int, vals []jv) (*world, error) {
 			w.defs[name] = lv
 		}
 	}
+	// one field with several arguments, with and without argument defaults (the product of
+	// supply modes per argument is explored by multiArgs)
+	q.Fields = append(q.Fields, gen.F("mx(p:Int=7,q:E=A,r:[Int]=[1],s:In,u:String):String"))
 	g.Types["Query"] = q
 	b, err := bridge.Build(g, bridge.Options{})
 	if err != nil {
@@ -415,6 +418,7 @@ func run(c *core.Ctx) {
 			}
 		}
 	}
+	w.multiArgs(c)
 	// nothing supplied at all: nullable arguments are simply absent, non-null ones rejected
 	for ti, t := range w.types {
 		if !c.Mine(ti) {
@@ -428,6 +432,85 @@ func run(c *core.Ctx) {
 			}
 		} else if r.nErr != 0 || r.args != "{}" {
 			c.Mismatch("", "absent nullable argument", fmt.Sprintf("type %s: without the argument the resolver got %s (errors %d)", t, r.args, r.nErr), map[string]interface{}{"type": ti, "value": 0, "depth": depth})
+		}
+	}
+}
+
+// multiArgs: one field with five arguments; every assignment of a supply mode (absent,
+// literal, variable with a value, variable left unset, variable with its own default) to
+// every argument. Arguments are coerced independently: each must arrive as the model says
+// whatever the others are.
+func (w *world) multiArgs(c *core.Ctx) {
+	type arg struct {
+		name, typ, def, lit string
+		val              interface{}
+		vdef             string
+	}
+	args := []arg{
+		{"p", "Int", "7", "3", 5, "9"},
+		{"q", "E", "A", "B", "B", "B"},
+		{"r", "[Int]", "[1]", "[2, 3]", 4, "[5]"},
+		{"s", "In", "", "{a: 1}", map[string]interface{}{"a": 2, "b": []interface{}{1}}, "{a: 3}"},
+		{"u", "String", "", `"x"`, "y", `"z"`},
+	}
+	const modes = 5
+	total := 1
+	for range args {
+		total *= modes
+	}
+	c.R.Bounds["multi_argument_supply_mode_assignments"] = total
+	for k := 0; k < total; k++ {
+		if !c.Mine(k) {
+			continue
+		}
+		var defs, uses []string
+		vars := map[string]interface{}{}
+		want := map[string]interface{}{}
+		kk := k
+		for _, a := range args {
+			m := kk % modes
+			kk /= modes
+			t := gen.ParseType(a.typ)
+			fromDefault := func() {
+				if a.def != "" {
+					want[a.name] = model.LiteralValue(w.g, t, gen.ParseValue(a.def), nil)
+				}
+			}
+			switch m {
+			case 0: // absent
+				fromDefault()
+			case 1: // literal
+				uses = append(uses, a.name+": "+a.lit)
+				want[a.name] = model.LiteralValue(w.g, t, gen.ParseValue(a.lit), nil)
+			case 2: // variable with a value
+				defs = append(defs, "$"+a.name+": "+a.typ)
+				uses = append(uses, a.name+": $"+a.name)
+				vars[a.name] = a.val
+				cv, _ := model.CoerceInput(w.g, t, a.val)
+				want[a.name] = cv
+			case 3: // variable left unset
+				defs = append(defs, "$"+a.name+": "+a.typ)
+				uses = append(uses, a.name+": $"+a.name)
+				fromDefault()
+			case 4: // variable with its own default, no value
+				defs = append(defs, "$"+a.name+": "+a.typ+" = "+a.vdef)
+				uses = append(uses, a.name+": $"+a.name)
+				want[a.name] = model.LiteralValue(w.g, t, gen.ParseValue(a.vdef), nil)
+			}
+		}
+		q := "{ mx }"
+		if len(uses) > 0 {
+			q = "{ mx(" + strings.Join(uses, ", ") + ") }"
+			if len(defs) > 0 {
+				q = "query(" + strings.Join(defs, ", ") + ") " + q
+			}
+		}
+		r := w.do(q, vars)
+		c.R.Evaluations++
+		c.R.States++
+		c.R.Nontriv(report.H("multi" + fmt.Sprint(k)))
+		if wantS := model.Canon(want); r.nErr != 0 || r.args != wantS {
+			c.Mismatch("", "multi-argument field", fmt.Sprintf("%s with %s: resolver got %s (error %q), expected %s", q, model.Canon(vars), r.args, r.msg, wantS), map[string]interface{}{"multi": k})
 		}
 	}
 }
@@ -449,6 +532,9 @@ func sigOf(b string, t *gen.TypeRef) string {
 }
 
 func replay(c *core.Ctx, p map[string]interface{}) (bool, string) {
+	if _, ok := p["depth"]; !ok {
+		return false, "nested-variable / multi-argument case: re-run the check to reproduce"
+	}
 	depth := int(p["depth"].(float64))
 	th, _ := p["thorough"].(bool)
 	vals := values(th)
